@@ -17,7 +17,7 @@ func TestC02(t *testing.T) {
 	Ev.Component("patcher, overlay bowl (GetWriter/Transpose/Commit), overlay writer+applier, rediff", "real")
 	Ev.Component("map iteration order of the two transposition loops", "decided by the simulator (instrumented copy)")
 	Ev.Component("old-build pool reads (invariant evaluation points), rename failure (BOWL_DEBUG_BROKEN_RENAME)", "simulated")
-	Ev.Assume("overlay writer reads the old file through a file-like reader (short only at EOF): no short reads injected on the old build")
+	Ev.Assume("the overlay bowl reads the old build through its own fspool (no seam): short reads on old files are injected in C14 and, for the fresh bowl, in C01/C07/C09")
 	Prop(t, "C02", func(rt *rapid.T) {
 		pair := GenPair(rt, GenOpts{Links: true, EmptyDirs: true, KindChange: true, DirFile: true, LowEntropy: true, MaxMid: 200 * KiB, Big: rapid.IntRange(0, 19).Draw(rt, "allowbig") == 0})
 		retry := rapid.IntRange(0, 3).Draw(rt, "retry") == 0
